@@ -488,3 +488,53 @@ fn service_time_contract_never_strands_work() {
     for f in &fails { println!("BOUNDED-FAIL service_time_contract_never_strands_work {}", f); }
     assert!(fails.is_empty());
 }
+
+/// C08 "an expired timeout ... the next-service time it reports is no later than the moment that work is due": acknowledged
+/// operations with different ack timeouts, a broker that never acknowledges them, a driver that services only at reported times.
+/// Every operation must fail with the ack-timeout error exactly at written-time + T, whatever the order of the deadlines.
+fn drive_silent_broker(kinds: &[Kind], timeouts_ms: &[u64], mode: ProtocolMode) -> Result<(), String> {
+    let cfg = Cfg { policy: OfflineQueuePolicy::PreserveAll, drain: PostReconnectQueueDrainPolicy::None, mode, retries: None, keep_alive: None, ack_timeout: None };
+    let mut r = Runner { h: H::new(cfg), acked_upto: 0, what: String::new() };
+    let x = r.h.connect(false, None); r.step(x, "connect")?;
+    let t_submit = r.h.now;
+    let mut tags = Vec::new();
+    for (k, t) in kinds.iter().zip(timeouts_ms.iter()) { tags.push((r.h.submit_with_timeout(*k, Some(std::time::Duration::from_millis(*t))), *t)); }
+    let results = r.h.results.clone();
+    let mut done_at: HashMap<u64, u64> = HashMap::new();
+    for _ in 0..200 {
+        if r.h.ps.pending_write_completion { let x = r.h.write_completion(); r.step(x, "write completion")?; continue; }
+        for (tag, _) in &tags { if r.h.result_count(*tag) > 0 && !done_at.contains_key(tag) { done_at.insert(*tag, (r.h.now - t_submit).as_millis() as u64); } }
+        if done_at.len() == tags.len() { break; }
+        let now = r.h.now;
+        match r.h.ps.get_next_service_timepoint(&now) {
+            None => return Err(format!("lost wake-up: next service time is NEVER with {} ack timeouts still armed", tags.len() - done_at.len())),
+            Some(t) => { if t > now { r.h.now = t; } let x = r.h.service(4096); r.step(x, "service at reported time")?; }
+        }
+    }
+    for (tag, t) in &tags {
+        match (r.h.result_of(*tag), done_at.get(tag)) {
+            (Some(Outcome::Err(e)), Some(at)) if e == "AckTimeout" && *at == *t => {}
+            other => return Err(format!("operation #{} (ack timeout {} ms, written at 0 ms) ended as {:?}", tag, t, other)),
+        }
+    }
+    let _ = results;
+    Ok(())
+}
+
+#[test]
+fn service_time_covers_every_armed_deadline() {
+    let acked = [Kind::Pub1, Kind::Pub2, Kind::Sub, Kind::Unsub];
+    let ts = [10u64, 30, 50];
+    let n = if super::tier_thorough() { 3 } else { 2 };
+    let mut cases = 0u64;
+    let mut fails: Vec<String> = Vec::new();
+    let mut combos: Vec<(Vec<Kind>, Vec<u64>)> = vec![(vec![], vec![])];
+    for _ in 0..n { let mut next = Vec::new(); for (ks, tv) in &combos { for k in acked { for t in ts { let mut a = ks.clone(); a.push(k); let mut b = tv.clone(); b.push(t); next.push((a, b)); } } } combos = next; }
+    for (ks, tv) in &combos { for mode in [ProtocolMode::Mqtt5, ProtocolMode::Mqtt311] {
+        cases += 1;
+        if let Err(e) = drive_silent_broker(ks, tv, mode) { if fails.len() < 20 { fails.push(format!("kinds={:?} timeouts={:?} mode={:?} :: {}", ks, tv, mode, e)); } }
+    } }
+    println!("BOUNDED service_time_covers_every_armed_deadline cases={} bound={} acknowledged operations x ack timeouts {{10,30,50 ms}} in every order x 2 versions, silent broker, driver services only at reported times", cases, n);
+    for f in &fails { println!("BOUNDED-FAIL service_time_covers_every_armed_deadline {}", f); }
+    assert!(fails.is_empty());
+}
